@@ -39,6 +39,37 @@ class ndarray(list):
     def tolist(self):
         return list(self)
 
+    class _DType:
+        kind = 'i'
+        name = 'int64'
+
+    dtype = _DType()
+
+    @property
+    def size(self):
+        return len(self)
+
+    @property
+    def shape(self):
+        return (len(self),)
+
+    def min(self):
+        m = list.__getitem__(self, 0)
+        for v in self:
+            if v < m:
+                m = v
+        return m
+
+    def max(self):
+        m = list.__getitem__(self, 0)
+        for v in self:
+            if v > m:
+                m = v
+        return m
+
+    def copy(self):
+        return ndarray(list(self))
+
 
 def _at(lst, i, n):
     if i < -n or i >= n:
@@ -142,6 +173,14 @@ def ceil(x):
     if i < x:
         i = i + 1
     return float(i)
+
+
+def asarray(x, dtype=None):
+    if isinstance(x, ndarray):
+        return x                      # numpy semantics: no copy for an array of the right type
+    if isinstance(x, (list, tuple)) and all(isinstance(v, int) and not isinstance(v, bool) for v in x):
+        return ndarray(list(x))
+    return _real.asarray(x) if dtype is None else _real.asarray(x, dtype=dtype)
 
 
 def __getattr__(name):
